@@ -480,6 +480,7 @@ theorem InvG.step {s : State} (hG : InvG s) (op : Op) : InvG (step s op) := by
   | setlimit cid l =>
     exact hG.weaken rfl rfl rfl (length_updClient _ _ _) (clientEpoch_updClient _ _ _ (fun _ => rfl)) (fun _ h => h)
   | cfgcancel b => exact hG.weaken rfl rfl rfl rfl (fun _ => rfl) (fun _ h => h)
+  | panicRecover => exact hG
 
 theorem InvG.init (n limit nfwd : Nat) : InvG (init n limit nfwd) := by
   refine ⟨?_, ?_, ?_, ?_, ?_, ?_⟩ <;> simp [CGV.BatchMux.init]
